@@ -5,6 +5,7 @@ flow of the region) and `Spec.GParams.pi_gourdon`; the AC term enters through th
 `ac_loop_eq_def`).
 -/
 import PcProofs.TopAlgsDR
+import PcProofs.TopAlgsB
 import PcProofs.ParamsL2Main
 import PcProofs.LeafSigma
 import PcProofs.HardDSpec
@@ -65,7 +66,7 @@ theorem getK_le_pi (x : ℕ) : getK x ≤ π (irootN 4 x) := getC_le_pi _
 theorem piGourdon_core {σ : Type} (T : Tables σ) {B : ℕ} (hT : TablesOK T B) (pi : ℕ → ℕ) (wide : Bool) (x : ℕ)
     (threads : ℤ) (isPrint : Bool) (r : GRun) (hx : 2401 ≤ x) (hx127 : x < 2 ^ 127)
     (hwx : wide = false → x < 2 ^ 63)
-    (hpi : ∀ n, n < x → pi n = π n)
+    (hpi : ∀ n, n ≤ x / ((gY x r.fo.v).toNat + 1) → n < x → pi n = π n)
     (hpar : gourdonL2 wide x threads r.fo = .ok (gOutPure wide x threads r.fo))
     (hrange : GourdonRange x threads (gOutPure wide x threads r.fo))
     (hyB : (gY x r.fo.v).toNat ≤ B) (hreach : GReach T.t x (gY x r.fo.v).toNat)
@@ -146,7 +147,7 @@ theorem piGourdon_core {σ : Type} (T : Tables σ) {B : ℕ} (hT : TablesOK T B)
     unfold AcLoopEqDef at this
     rwa [← hyi, ← hzi, ← hy, ← hz, ← hxsd] at this
   rw [liftE_ok hac, TM_bind_ok]
-  have hb := P2L.bOpenMP_eq hT.iter hpi y T.lc hT.consts hxy63 r.b
+  have hb := P2L.bOpenMP_eq_sharp hT.iter y hpi T.lc hT.consts hxy63 r.b
     (fun a => by have := hadm.b a; rwa [← hyi, ← hy] at this)
   rw [liftP2_ok hb, TM_bind_ok]
   obtain ⟨tmax, hF⟩ := hT.dFactor y z hyB
